@@ -7,7 +7,7 @@
 From Coq Require Import ZArith List Bool Lia.
 From Low Require Import Lib.MachInt Lib.Bits Lib.BitSeq Model.TailBitmap
   Spec.TailBitmapSpec Spec.TailBitmapInv Spec.TailBitmapObs
-  Proofs.TailBitmapProofs Proofs.TailBitmapHist Proofs.TailBitmapChecker Run.C15.
+  Proofs.TailBitmapProofs Proofs.TailBitmapHist Proofs.TailBitmapChecker Proofs.TailBitmapSound Run.C15.
 Import ListNotations.
 Open Scope Z_scope.
 
@@ -218,4 +218,23 @@ Proof.
   { eapply Inv_ext; [intros j; symmetry; apply memP_hist_of_words|].
     eapply Inv_weaken; [|exact (lit_Inv off ws 0 D Dw)]. apply head_okb_iff. }
   exact (run_proto_lit_ok off ps _ _ _ l I E).
+Qed.
+
+(** ** the checker of the literal operation decides the Prop-level property of an observed history *)
+
+Lemma lit_TInvW off ws : off mod 64 = 0 -> words_ok ws ->
+  TInvW off (memP (hist_of_words off ws)) off ws.
+Proof.
+  intros Ho Hw.
+  assert (I : Inv (head_ok ws) off (memP (hist_of_words off ws)) (mkTB off ws 0)).
+  { eapply Inv_ext; [intros j; symmetry; apply memP_hist_of_words|]. apply lit_Inv; assumption. }
+  exact (Inv_TInvW _ _ _ _ I).
+Qed.
+
+Lemma check_literal_iff off ws ps obs : off mod 64 = 0 -> words_ok ws ->
+  Forall (fun ob => words_ok (snd (fst ob))) obs ->
+  (check_literal off ws ps obs = true <-> lit_obs_ok off ws ps obs).
+Proof.
+  intros Ho Hw Hobs. unfold check_literal, lit_obs_ok.
+  apply check_run_lit_iff; [apply s_head_okb_iff|apply lit_TInvW; assumption|exact Hobs].
 Qed.
